@@ -154,6 +154,8 @@ pub struct Stats {
     pub mid_rej_later_acc: u64,
     pub scope_hash_ties: u64,
     pub kinds_disagree_on_order_key: u64,
+    pub kinds_identical: u64,
+    pub kinds_differ: u64,
     pub keys: Vec<u128>,
     pub patterns: BTreeMap<String, u64>,
 }
@@ -166,6 +168,8 @@ impl Stats {
         self.mid_rej_later_acc += o.mid_rej_later_acc;
         self.scope_hash_ties += o.scope_hash_ties;
         self.kinds_disagree_on_order_key += o.kinds_disagree_on_order_key;
+        self.kinds_identical += o.kinds_identical;
+        self.kinds_differ += o.kinds_differ;
         self.keys.extend(o.keys);
         for (k, v) in o.patterns {
             *self.patterns.entry(k).or_insert(0) += v;
@@ -449,12 +453,12 @@ pub fn run(r: &Report) {
             let a = check_case(r, SchedulerKind::Radix, &seq, &mut st);
             let b = check_case(r, SchedulerKind::Legacy, &seq, &mut st);
             if let (Some(a), Some(b)) = (a, b) {
-                if a != b {
-                    r.violation(
-                        "receipt:Radix-vs-Legacy:receipts-differ",
-                        json!({"case": case_json(SchedulerKind::Radix, &seq),
-                               "radix": obs_json(&a), "legacy": obs_json(&b)}),
-                    );
+                // each kind was judged against its own documented key above; a difference
+                // between the kinds is an observation about the keys, not a violation
+                if a == b {
+                    st.kinds_identical += 1;
+                } else {
+                    st.kinds_differ += 1;
                 }
             }
             st
@@ -472,6 +476,8 @@ pub fn run(r: &Report) {
     r.counter("receipt_rejected_then_later_conflicting_candidate_accepted", st.mid_rej_later_acc);
     r.counter("receipt_scope_hash_ties", st.scope_hash_ties);
     r.counter("receipt_runs_where_radix_and_legacy_keys_order_differently", st.kinds_disagree_on_order_key);
+    r.counter("receipt_sequences_where_radix_and_legacy_receipts_identical", st.kinds_identical);
+    r.counter("receipt_sequences_where_radix_and_legacy_receipts_differ(observation)", st.kinds_differ);
     for (p, c) in &st.patterns {
         r.outcome_n(&format!("receipt-dispositions:{p}"), *c);
     }
